@@ -157,9 +157,11 @@ func loadStore(st variable.Storer, vars map[string]mval) {
 
 func runC02(c c02Case) Verdict {
 	c.fix()
-	src := "title: Start\n---\n{cap(" + printExpr(c.E, nil) + ")}\n===\n"
+	// the same expression node is evaluated twice on one runner (the node jumps back to itself): the value of
+	// an expression must not depend on its having been evaluated before
+	src := "title: Start\n---\n{cap(" + printExpr(c.E, nil) + ")}\n<<jump Start>>\n===\n"
+	expr := printExpr(c.E, nil)
 	env := &probeEnv{vars: c.Vars}
-	want, wantErr := evalExpr(c.E, env)
 
 	storer := variable.NewInMemoryStorer()
 	loadStore(storer, c.Vars)
@@ -174,40 +176,48 @@ func runC02(c c02Case) Verdict {
 		captured = append(captured, toMvals(args)...)
 		return variable.NewNumber(0), nil
 	})
-	var el *ysgo.DialogueElement
-	var gotErr error
-	var panicked any
-	func() {
-		defer func() { panicked = recover() }()
-		el, gotErr = dr.Next(0)
-	}()
-	expr := printExpr(c.E, nil)
-	if panicked != nil {
+	isErr := false
+	for round := 1; round <= 2; round++ {
+		want, wantErr := evalExpr(c.E, env)
+		captured = nil
+		var el *ysgo.DialogueElement
+		var gotErr error
+		var panicked any
+		func() {
+			defer func() { panicked = recover() }()
+			el, gotErr = dr.Next(0)
+		}()
+		if panicked != nil {
+			if wantErr != nil {
+				// whether faults panic is C06's business; here only "an error, never a value" matters
+				return Verdict{Discard: "panic on an ill-typed expression (C06)"}
+			}
+			return failf("evaluating %s panicked (evaluation %d): %v", expr, round, panicked)
+		}
 		if wantErr != nil {
-			// whether faults panic is C06's business; here only "an error, never a value" matters
-			return Verdict{Discard: "panic on an ill-typed expression (C06)"}
+			isErr = true
+			if gotErr == nil {
+				return failf("%s must be an error (%v) but evaluated to %v (evaluation %d)", expr, wantErr, captured, round)
+			}
+		} else {
+			if gotErr != nil {
+				return failf("%s must evaluate to %v but failed (evaluation %d): %v", expr, want, round, gotErr)
+			}
+			if el == nil || el.Line == nil || len(captured) != 1 {
+				return failf("%s: unexpected element %+v, captured %v (evaluation %d)", expr, el, captured, round)
+			}
+			if !sameVal(captured[0], want) {
+				return failf("%s = %v, want %v (evaluation %d of the same expression on one runner; variables %v)", expr, captured[0], want, round, c.Vars)
+			}
 		}
-		return failf("evaluating %s panicked: %v", expr, panicked)
+		if strings.Join(log, ";") != strings.Join(env.log, ";") {
+			return failf("%s: host functions were called as %v, want %v (evaluation %d)", expr, log, env.log, round)
+		}
+		if isErr {
+			break // where the runner resumes after an error is not C02's business
+		}
 	}
-	if wantErr != nil {
-		if gotErr == nil {
-			return failf("%s must be an error (%v) but evaluated to %v", expr, wantErr, captured)
-		}
-	} else {
-		if gotErr != nil {
-			return failf("%s must evaluate to %v but failed: %v", expr, want, gotErr)
-		}
-		if el == nil || el.Line == nil || len(captured) != 1 {
-			return failf("%s: unexpected element %+v, captured %v", expr, el, captured)
-		}
-		if !sameVal(captured[0], want) {
-			return failf("%s = %v, want %v (variables %v)", expr, captured[0], want, c.Vars)
-		}
-	}
-	if strings.Join(log, ";") != strings.Join(env.log, ";") {
-		return failf("%s: host functions were called as %v, want %v", expr, log, env.log)
-	}
-	return classifyC02(c.E, wantErr != nil)
+	return classifyC02(c.E, isErr)
 }
 
 func classifyC02(e *Expr, isErr bool) Verdict {
